@@ -276,7 +276,7 @@ def sany(family, module):
             for f in os.listdir(common):
                 if not os.path.exists(os.path.join(wd, f)):
                     shutil.copy(os.path.join(common, f), wd)
-        p = subprocess.run(["timeout", "120", "java", "-cp",
+        p = subprocess.run(["timeout", "120", "java", "-Djava.io.tmpdir=" + s, "-cp",
                             "/opt/veriftools/tla/tla2tools.jar:/opt/veriftools/tla/CommunityModules-deps.jar",
                             "tla2sany.SANY", module + ".tla"], cwd=wd, stdout=subprocess.PIPE,
                            stderr=subprocess.STDOUT, text=True)
